@@ -65,9 +65,9 @@ Proof.
   exact (SSim_cons _ _ _ _ _ _ _ (SSim_add (param_var n l) seg ens) (IH ls' _ ens)).
 Qed.
 
-Lemma SSim_local_rest lc : forall ns ls ats seg ens,
+Lemma SSim_local_rest il lc : forall ns ls ats seg ens,
   length ns = length ls -> length ns = length ats ->
-  SSim (local_rest ns ls ats lc) (seg :: ens) ((rev (combine ns ls) ++ seg) :: ens) [].
+  SSim (local_rest il ns ls ats lc) (seg :: ens) ((rev (combine ns ls) ++ seg) :: ens) [].
 Proof.
   induction ns as [|n ns' IH]; intros ls ats seg ens Hl Ha; [apply SSim_nil|].
   destruct ls as [|l ls']; [discriminate|]. destruct ats as [|a ats']; [discriminate|].
@@ -216,7 +216,7 @@ Definition local_vis (flv : N) : list name -> list loc -> list attr -> list exp 
 
 Lemma tr_stat_local ns ls ats es l flv slv g :
   tr_stat (SLocal ns ls ats es l) flv slv g =
-  let (a1, g1) := local_vis flv ns ls ats es g in (a1 ++ local_add_acts ns ls ats es, g1).
+  let (a1, g1) := local_vis flv ns ls ats es g in (a1 ++ local_add_acts (Scope.init_loc ns ls es l) ns ls ats es, g1).
 Proof. reflexivity. Qed.
 
 Lemma local_vis_thread flv : forall es ns ls ats g,
@@ -253,9 +253,9 @@ Lemma name_mem_cons x n X : name_mem x (n :: X) = name_eqb x n || name_mem x X.
 Proof. reflexivity. Qed.
 
 (* the names are added after the initialisers: nothing is logged *)
-Lemma SSim_local_adds : forall es ns ls ats seg ens,
+Lemma SSim_local_adds il : forall es ns ls ats seg ens,
   length ns = length ls -> length ns = length ats -> (length es <= length ns)%nat ->
-  SSim (local_add_acts ns ls ats es) (seg :: ens) ((rev (combine ns ls) ++ seg) :: ens) [].
+  SSim (local_add_acts il ns ls ats es) (seg :: ens) ((rev (combine ns ls) ++ seg) :: ens) [].
 Proof.
   induction es as [|e es' IH]; intros ns ls ats seg ens Hl Ha Hle.
   - cbn [local_add_acts]. apply SSim_local_rest; assumption.
@@ -265,8 +265,8 @@ Proof.
     assert (Ha' : length ns' = length ats') by (cbn [length] in Ha; lia).
     assert (Hle' : (length es' <= length ns')%nat) by (cbn [length] in Hle; lia).
     cbn [local_add_acts combine rev]. rewrite <- app_assoc. cbn [app].
-    set (v := mkVar n l false (match a with AttrClose => true | _ => false end) (is_func_exp e) (Some e)
-                    (local_refer_empty n e) []).
+    set (v := mkVar10 n l false (match a with AttrClose => true | _ => false end) (is_func_exp e) (Some e)
+                      (local_refer_empty n e) [] il (Scope.tab_of_exp e)).
     destruct es' as [|e2 es2].
     + refine (SSim_cons _ _ _ _ _ _ _ (SSim_add v seg ens) _). apply SSim_local_rest; assumption.
     + refine (SSim_cons _ _ _ _ _ _ _ (SSim_add v seg ens) _). apply IH; assumption.
